@@ -9,8 +9,8 @@ GENS = ['bspfmt']
 DRIVERS = ['drv_c11']
 PROPS = 'Srctools.Props.C11'
 RULE = ("worlds: for each of the 7 BSP configurations (v19, v20, v21, L4D2 header order, INFRA, Chaos v25, VitaminSource) x each "
-        "of the 13 static-prop versions (quick: every version on v20 + every configuration once + Chaos versions on the Chaos "
-        "layout; thorough: full product, several sizes) a consistent object graph for all 20 structured views is generated "
+        "of the 13 static-prop versions (quick: the full 7 x 13 product once; thorough: ten times, sizes 1..4; plus extra worlds per "
+        "configuration until every view has been non-empty there) a consistent object graph for all 20 structured views is generated "
         "(list sizes 0..4, an all-empty world, float32-exact numbers incl. -0.0/denormal/max, every enum member, random flag "
         "subsets incl. all-bits, shared sub-objects: faces sharing planes/texinfo/orig faces/edge slices, slices running past the "
         "end of a shared list plus fresh objects, entities sharing a brush model, leafs sharing faces/brushes), assigned, saved, "
@@ -372,18 +372,14 @@ def _plan(ctx):
     cfgs = [c[0] for c in W.CONFIGS]
     plan = []
     if ctx.thorough:
-        for rep in range(3):
+        for rep in range(10):
             for c in cfgs:
                 for v in vers:
                     plan.append((c, v, 1 + (rep + len(plan)) % 4, False))
     else:
-        for v in vers:
-            plan.append(('v20', v, 3, False))
         for c in cfgs:
-            for s in (2, 4):
-                plan.append((c, vers[(len(plan) * 5) % len(vers)], s, False))
-        for v in ('V_CHAOS_V12', 'V_CHAOS_V13'):
-            plan.append(('chaos', v, 3, False))
+            for v in vers:
+                plan.append((c, v, 2 + (len(plan) % 3), False))
     for c in cfgs:
         plan.append((c, 'V5' if c != 'chaos' else 'V_CHAOS_V13', 1, True))
     return plan
@@ -401,7 +397,8 @@ def _run_world(tmp, cfg, pv, size, empty, wseed, views=None, tag='x'):
     try:
         W.assign_world(bsp, w, use)
         exp = {v: D.view(w, v) for v in use}
-        res['nonempty'] = sum(1 for v in use if exp[v] not in (None, [], ()) and not (v == 'ents' and not exp[v][2]))
+        res['nonempty_views'] = sorted(v for v in use if exp[v] not in (None, [], ()) and not (v == 'ents' and not exp[v][2]))
+        res['nonempty'] = len(res['nonempty_views'])
         out = os.path.join(tmp, f'out_{tag}.bsp')
         bsp.save(out)
     except Exception as e:
@@ -560,6 +557,27 @@ def _worlds(ctx):
         res = _run_world(tmp, cfg, pv, size, empty, wseed, tag=f'w{i}')
         res['case'] = {'cfg': cfg, 'prop_version': pv, 'size': size, 'empty': empty, 'wseed': wseed}
         out.append(res)
+    # coverage: every configuration must have seen every view non-empty at least once
+    n_plan = len(out)
+    for cfg in [c[0] for c in W.CONFIGS]:
+        inapplicable = {'orig_faces', 'hdr_faces', 'primitives'} if cfg == 'vitamin' else set()
+        need = set(W.VIEWS) - inapplicable
+        have = set()
+        for r in out:
+            if r['case']['cfg'] == cfg:
+                have |= set(r.get('nonempty_views', []))
+        k = 0
+        while need - have and k < 40:
+            pv = ['V5', 'V10', 'V_LIGHTMAP_v7', 'V_CHAOS_V13', 'V8'][k % 5] if cfg != 'chaos' else ['V_CHAOS_V12', 'V_CHAOS_V13', 'V11'][k % 3]
+            wseed = f'{ctx.seed}:cov:{cfg}:{k}'
+            res = _run_world(tmp, cfg, pv, 4, False, wseed, tag=f'c{cfg}{k}')
+            res['case'] = {'cfg': cfg, 'prop_version': pv, 'size': 4, 'empty': False, 'wseed': wseed}
+            out.append(res)
+            have |= set(res.get('nonempty_views', []))
+            k += 1
+        if need - have:
+            ctx.notes.append(f'coverage: views never non-empty for {cfg}: {sorted(need - have)}')
+        ctx.count(f'coverage-worlds:{cfg}', k)
     ctx._c11_worlds = out
     return out
 
